@@ -475,8 +475,92 @@ pub fn expected_forward(q: &Value) -> Value {
 
 //------------ configuration --------------------------------------------------
 
+/// The documented defaults (spec: DocDefaults / CfgDefault).  When the
+/// specification's configuration is this one, the real configuration is
+/// `Config::new()` with no validity setter called, so that the defaults the
+/// code really has are what is exercised.
+fn is_documented_default(c: &Value) -> bool {
+    c["maxValidity"] == json!(604800)
+        && c["transportFailure"] == json!(30)
+        && c["miscError"] == json!(30)
+        && c["maxNxdomain"] == json!(3600)
+        && c["maxNodata"] == json!(3600)
+        && c["maxDelegation"] == json!(1000000)
+        && c["cacheTruncated"] == json!(false)
+}
+
+/// The fields of a `Config`, read from its `Debug` form (it has no getters),
+/// in the specification's vocabulary; durations in seconds.
+pub fn config_fields(cfg: &cache::Config) -> Value {
+    let shown = format!("{:?}", cfg);
+    let inner = shown
+        .trim_start_matches("Config")
+        .trim()
+        .trim_start_matches('{')
+        .trim_end_matches('}');
+    let mut out = serde_json::Map::new();
+    for part in inner.split(',') {
+        let mut kv = part.splitn(2, ':');
+        let k = kv.next().unwrap_or("").trim();
+        let v = kv.next().unwrap_or("").trim();
+        let name = match k {
+            "max_cache_entries" => "maxEntries",
+            "max_validity" => "maxValidity",
+            "transport_failure_duration" => "transportFailure",
+            "misc_error_duration" => "miscError",
+            "max_nxdomain_validity" => "maxNxdomain",
+            "max_nodata_validity" => "maxNodata",
+            "max_delegation_validity" => "maxDelegation",
+            "cache_truncated" => "cacheTruncated",
+            "" => continue,
+            other => other,
+        };
+        let val = if v == "true" || v == "false" {
+            json!(v == "true")
+        } else if let Some(s) = v.strip_suffix('s') {
+            // Duration's Debug: whole seconds print as "<n>s"
+            match s.parse::<u64>() {
+                Ok(n) => json!(n),
+                Err(_) => json!(v),
+            }
+        } else {
+            match v.parse::<u64>() {
+                Ok(n) => json!(n),
+                Err(_) => json!(v),
+            }
+        };
+        out.insert(name.to_string(), val);
+    }
+    Value::Object(out)
+}
+
+/// `Config::new()` followed by one setter.
+pub fn config_after_set(field: &str, value: &Value) -> cache::Config {
+    let mut cfg = cache::Config::new();
+    let n = value.as_u64().unwrap_or(0);
+    let d = Duration::from_secs(n);
+    match field {
+        "maxEntries" => cfg.set_max_cache_entries(n),
+        "maxValidity" => cfg.set_max_validity(d),
+        "transportFailure" => cfg.set_transport_failure_duration(d),
+        "miscError" => cfg.set_misc_error_duration(d),
+        "maxNxdomain" => cfg.set_max_nxdomain_validity(d),
+        "maxNodata" => cfg.set_max_nodata_validity(d),
+        "maxDelegation" => cfg.set_max_delegation_validity(d),
+        "cacheTruncated" => cfg.set_cache_truncated(value.as_bool().unwrap_or(false)),
+        _ => {}
+    }
+    cfg
+}
+
 pub fn config_of(c: &Value) -> cache::Config {
     let mut cfg = cache::Config::new();
+    if is_documented_default(c) {
+        if let Some(n) = c.get("maxEntries").and_then(|x| x.as_u64()) {
+            cfg.set_max_cache_entries(n);
+        }
+        return cfg;
+    }
     let secs = |k: &str| Duration::from_secs(c[k].as_u64().unwrap_or(0));
     cfg.set_max_validity(secs("maxValidity"));
     cfg.set_transport_failure_duration(secs("transportFailure"));
